@@ -68,6 +68,59 @@ impl Ctx {
 /// lock: constructing a u8-word reader prints the library's look-ahead
 /// diagnostic, and the workloads construct millions of readers.) A monitor must
 /// call par_items exactly once: a shard process exits at the end of it.
+// ---------------------------------------------------------------------------------------------
+// Hang watchdog on a logical clock
+// ---------------------------------------------------------------------------------------------
+
+/// Count of monitored operations started or finished (every guarded library call, every evaluation).
+pub static TICKS: std::sync::atomic::AtomicU64 = std::sync::atomic::AtomicU64::new(0);
+#[inline(always)]
+pub fn tick() {
+    TICKS.fetch_add(1, std::sync::atomic::Ordering::Relaxed);
+}
+/// Exit code of a worker whose library call did not return.
+pub const HANG_EXIT: i32 = 86;
+
+/// CPU seconds (user + system) consumed by this process so far.
+fn cpu_secs() -> Option<f64> {
+    let s = std::fs::read_to_string("/proc/self/stat").ok()?;
+    let rest = &s[s.rfind(')')? + 2..];
+    let f: Vec<&str> = rest.split_whitespace().collect();
+    let ut: f64 = f.get(11)?.parse().ok()?;
+    let st: f64 = f.get(12)?.parse().ok()?;
+    Some((ut + st) / 100.0)
+}
+
+/// A library call that loops without touching its backend escapes the call budgets. The verdict is
+/// still taken on a logical clock, not on wall time: the process is declared hung when it has burnt
+/// `limit` CPU-seconds without completing a single monitored operation (each of which costs
+/// microseconds). A loaded machine slows the wall clock, not this one; an idle process (a parent
+/// waiting for its workers) accumulates no CPU time at all.
+fn start_hang_watchdog(limit: f64) {
+    if cfg!(miri) || std::env::var_os("VERIF_NO_WATCHDOG").is_some() {
+        return;
+    }
+    std::thread::spawn(move || {
+        let mut last = TICKS.load(std::sync::atomic::Ordering::Relaxed);
+        let mut cpu_at_last = cpu_secs().unwrap_or(0.0);
+        loop {
+            std::thread::sleep(std::time::Duration::from_millis(500));
+            let t = TICKS.load(std::sync::atomic::Ordering::Relaxed);
+            let c = match cpu_secs() {
+                Some(c) => c,
+                None => return,
+            };
+            if t != last {
+                last = t;
+                cpu_at_last = c;
+            } else if c - cpu_at_last > limit {
+                println!("[dsiverif] HANG: {:.0} CPU-seconds without completing a monitored operation (after {} operations)", c - cpu_at_last, t);
+                std::process::exit(HANG_EXIT);
+            }
+        }
+    });
+}
+
 pub fn par_items<T: Sync, F>(ctx: &Ctx, prop: &str, items: &[T], f: F) -> Report
 where
     F: Fn(&T, &mut Report) + Sync,
@@ -105,6 +158,14 @@ where
         let status = child.wait().expect("wait");
         match (status.success(), std::fs::read(&out)) {
             (true, Ok(bytes)) => total.merge(Report::from_bytes(&bytes)),
+            _ if status.code() == Some(HANG_EXIT) => {
+                let (tier, seed) = (ctx.tier_name().to_string(), ctx.seed);
+                total.violation(
+                    "did-not-return",
+                    || format!("worker {}/{} burnt {} CPU-seconds inside one library call (or one step of the monitor) without returning: an operation of this property does not terminate", i, n, HANG_LIMIT),
+                    || format!("hang=1 tier={} seed={} shard={}/{}", tier, seed, i, n),
+                );
+            }
             _ => total.inconclusive(format!("shard {}/{} failed ({:?})", i, n, status.code())),
         }
         let _ = std::fs::remove_file(&out);
@@ -154,6 +215,8 @@ where
     total
 }
 
+pub const HANG_LIMIT: f64 = 60.0;
+
 fn arg_value(args: &[String], name: &str) -> Option<String> {
     args.iter().position(|a| a == name).and_then(|i| args.get(i + 1).cloned())
 }
@@ -192,6 +255,7 @@ fn main() {
     match args[1].as_str() {
         "run" => {
             let prop = args.get(2).expect("property id").clone();
+            start_hang_watchdog(HANG_LIMIT);
             let t0 = Instant::now();
             let rep = match props::run(&prop, &ctx) {
                 Some(r) => r,
@@ -238,6 +302,28 @@ fn main() {
             let text = std::fs::read_to_string(file).expect("cannot read replay file");
             let case = report::json_get_str(&text, "case").expect("replay file has no case");
             let mut rep = Report::new(&prop);
+            if case.starts_with("hang=1") {
+                // re-run the worker that did not return, in a child process, and see whether it returns now
+                let kv = report::Kv::parse(&case);
+                let exe = std::env::current_exe().expect("current_exe");
+                let out = std::env::temp_dir().join(format!("dsiverif-hang-replay-{}.bin", std::process::id()));
+                let st = std::process::Command::new(&exe)
+                    .args(["run", &prop, "--tier", kv.get("tier"), "--seed", kv.get("seed"), "--shard", kv.get("shard"), "--shard-out"])
+                    .arg(&out)
+                    .stdout(std::process::Stdio::null())
+                    .stderr(std::process::Stdio::null())
+                    .status()
+                    .expect("cannot spawn worker");
+                let _ = std::fs::remove_file(&out);
+                if st.code() == Some(HANG_EXIT) {
+                    println!("[dsiverif] replay {}: worker {} did not return again", prop, kv.get("shard"));
+                    println!("[dsiverif]   violation did-not-return: worker {} burnt {} CPU-seconds in one operation", kv.get("shard"), HANG_LIMIT);
+                    std::process::exit(1);
+                }
+                println!("[dsiverif] replay {}: worker {} returned (exit {:?})", prop, kv.get("shard"), st.code());
+                return;
+            }
+            start_hang_watchdog(HANG_LIMIT);
             if !props::replay(&prop, &case, &mut rep) {
                 println!("INCONCLUSIVE property={} reason=no-replay-support", prop);
                 std::process::exit(2);
